@@ -1199,6 +1199,14 @@ mod convert {
         strings: &'a mut write::StringTable,
         address: Option<u64>,
         state: ConvertLineState,
+        /// The address offset of the last row that was returned for the current sequence.
+        last_row_offset: u64,
+        /// The amount to subtract from `from_row.address()` to get the address offset
+        /// of a row.
+        ///
+        /// `DW_LNE_set_address` discards any advance since the last row, but `from_row`
+        /// keeps accumulating, so this is updated for each `DW_LNE_set_address`.
+        offset_adjust: u64,
     }
 
     impl<'a, R: Reader + 'a> ConvertLineProgram<'a, R> {
@@ -1323,6 +1331,8 @@ mod convert {
                 strings,
                 address: None,
                 state: ConvertLineState::ReadRow,
+                last_row_offset: 0,
+                offset_adjust: 0,
             })
         }
 
@@ -1396,7 +1406,9 @@ mod convert {
                 }
                 ConvertLineState::EndSequence => {
                     self.state = ConvertLineState::ReadRow;
-                    return Ok(Some(ConvertLineRow::EndSequence(self.from_row.address())));
+                    return Ok(Some(ConvertLineRow::EndSequence(
+                        self.end_sequence_offset()?,
+                    )));
                 }
             }
             let mut tombstone = false;
@@ -1416,6 +1428,9 @@ mod convert {
                             read::LineInstruction::SetAddress(offset),
                             &mut self.from_program,
                         )?;
+                        // The next row is at the new address plus any advance after this
+                        // instruction; any advance since the last row no longer counts.
+                        self.offset_adjust = offset.wrapping_sub(self.last_row_offset);
                         // Handle tombstones the same way that `from_row.execute` would have.
                         let tombstone_address =
                             !0 >> (64 - self.from_program.header().encoding().address_size * 8);
@@ -1455,13 +1470,14 @@ mod convert {
                     continue;
                 }
                 if self.from_row.end_sequence() {
-                    self.check_address_offset(self.from_row.address())?;
                     if let Some(address) = self.address.take() {
                         // An address was set directly before the end of the sequence.
                         self.state = ConvertLineState::EndSequence;
                         return Ok(Some(ConvertLineRow::SetAddress(address)));
                     }
-                    return Ok(Some(ConvertLineRow::EndSequence(self.from_row.address())));
+                    return Ok(Some(ConvertLineRow::EndSequence(
+                        self.end_sequence_offset()?,
+                    )));
                 }
                 if let Some(address) = self.address.take() {
                     self.state = ConvertLineState::ConvertRow;
@@ -1474,10 +1490,28 @@ mod convert {
             Ok(None)
         }
 
-        fn convert_row(&self) -> ConvertResult<LineRow> {
-            self.check_address_offset(self.from_row.address())?;
+        /// The address offset of `from_row`, relative to the address that was set last.
+        fn address_offset(&self) -> u64 {
+            self.from_row.address().wrapping_sub(self.offset_adjust)
+        }
+
+        /// The address offset for the end of the sequence in `from_row`.
+        ///
+        /// Also resets the offsets for the next sequence.
+        fn end_sequence_offset(&mut self) -> ConvertResult<u64> {
+            let offset = self.address_offset();
+            self.last_row_offset = 0;
+            self.offset_adjust = 0;
+            self.check_address_offset(offset)?;
+            Ok(offset)
+        }
+
+        fn convert_row(&mut self) -> ConvertResult<LineRow> {
+            let address_offset = self.address_offset();
+            self.check_address_offset(address_offset)?;
+            self.last_row_offset = address_offset;
             Ok(LineRow {
-                address_offset: self.from_row.address(),
+                address_offset,
                 op_index: self.from_row.op_index(),
                 file: {
                     let file = self.from_row.file_index();
@@ -1545,7 +1579,7 @@ mod convert {
                         // The address was set directly before the end of the sequence.
                         return Ok(Some(ConvertLineSequence {
                             start,
-                            end: ConvertLineSequenceEnd::Length(self.from_row.address()),
+                            end: ConvertLineSequenceEnd::Length(self.end_sequence_offset()?),
                             rows,
                         }));
                     }
@@ -1555,7 +1589,7 @@ mod convert {
                     self.state = ConvertLineState::ReadRow;
                     return Ok(Some(ConvertLineSequence {
                         start,
-                        end: ConvertLineSequenceEnd::Length(self.from_row.address()),
+                        end: ConvertLineSequenceEnd::Length(self.end_sequence_offset()?),
                         rows,
                     }));
                 }
